@@ -618,21 +618,40 @@ def spawn_layer_in_subprocess(result, script_parts, options, features,
                                      for line in errlines[-10:]))
             output.error_with_banner(errmsg)
 
-        while nfail > 0:
-            nfail -= 1
-            # Doing erriter.next().strip() confuses the 2to3 fixer, so
-            # we need to do it on a separate line. Also, in python 3 this
-            # returns bytes, so we decode it.
-            next_fail = next(erriter)
-            failures.append((next_fail.strip().decode(), None))
-        while nerr > 0:
-            nerr -= 1
-            # Doing erriter.next().strip() confuses the 2to3 fixer, so
-            # we need to do it on a separate line. Also, in python 3 this
-            # returns bytes, so we decode it.
-            next_err = next(erriter)
-            errors.append((next_err.strip().decode(), None))
+        new_failures = []
+        new_errors = []
+        try:
+            while nfail > 0:
+                nfail -= 1
+                # Doing erriter.next().strip() confuses the 2to3 fixer, so
+                # we need to do it on a separate line. Also, in python 3
+                # this returns bytes, so we decode it.
+                next_fail = next(erriter)
+                new_failures.append((next_fail.strip().decode(), None))
+            while nerr > 0:
+                nerr -= 1
+                # Doing erriter.next().strip() confuses the 2to3 fixer, so
+                # we need to do it on a separate line. Also, in python 3
+                # this returns bytes, so we decode it.
+                next_err = next(erriter)
+                new_errors.append((next_err.strip().decode(), None))
+        except (StopIteration, UnicodeDecodeError):
+            # The report was cut short or is damaged: do not use partial
+            # data, record an error for the layer instead.
+            errors.append(("subprocess for %s" % layer_name, None))
+            output.error_with_banner(
+                "Incomplete report from subprocess for %s!" % layer_name)
+        else:
+            failures.extend(new_failures)
+            errors.extend(new_errors)
 
+    except Exception as e:
+        # This function runs as a thread target: an exception escaping
+        # from here (e.g. the subprocess could not be started) would be
+        # lost and the layer silently not run.
+        errors.append(("subprocess for %s" % layer_name, None))
+        output.error_with_banner(
+            "Could not run subprocess for %s: %s" % (layer_name, e))
     finally:
         result.done = True
         if child is not None:
